@@ -353,10 +353,10 @@ func (oracleC08) Step(x *OCtx, t *Trans) []Violation {
 	if t.Res.Stateless != nil {
 		return nil
 	}
-	if t.Res.Panic != "" {
+	if t.Res.Panic != "" && !admit {
 		return nil // C20
 	}
-	if admit && !t.Res.OK() {
+	if admit && !t.Res.OK() { // (a panic refuses the response as well; C20 reports the panic itself)
 		out = append(out, viol("C08", "admissible-response-accepted", "respond", why, fmt.Sprintf("response by the designated provider at height %d (issued %d, timeout %d) was rejected: %s", t.Pre.H, e.IssueH, e.Timeout, t.Res.ErrString())))
 	}
 	if !admit && t.Res.OK() {
